@@ -452,3 +452,37 @@ pub fn construct<D: Mk>(d: &mut D, v: &V) -> Result<usize, DataError> {
         V::Unknown => return Err(DataError::from("verif: cannot construct Unknown".to_string())),
     })
 }
+
+/// like `construct`, but every sub-value that occurs more than once is built once and referenced from each place
+pub fn construct_shared<D: Mk>(d: &mut D, v: &V, memo: &mut std::collections::HashMap<String, usize>) -> Result<usize, DataError> {
+    let key = v.show();
+    if let Some(a) = memo.get(&key) {
+        return Ok(*a);
+    }
+    let a = match v {
+        V::Pair(x, y) => {
+            let l = construct_shared(d, x, memo)?;
+            let r = construct_shared(d, y, memo)?;
+            d.add_pair((l, r))?
+        }
+        V::Concat(x, y) => {
+            let l = construct_shared(d, x, memo)?;
+            let r = construct_shared(d, y, memo)?;
+            d.add_concatenation(l, r)?
+        }
+        V::List(xs) => {
+            let mut addrs = vec![];
+            for x in xs {
+                addrs.push(construct_shared(d, x, memo)?);
+            }
+            let mut li = d.start_list(addrs.len())?;
+            for a in addrs {
+                li = d.add_to_list(li, a)?;
+            }
+            d.end_list(li)?
+        }
+        o => construct(d, o)?,
+    };
+    memo.insert(key, a);
+    Ok(a)
+}
